@@ -105,14 +105,12 @@ mod v_socket_raw {
         }
     }
 
+    /// straight-line (no loop: keeps the unwind bound at what smoltcp's own loops need)
     fn copy_into(buf: &mut [u8], src: &[u8; BL]) {
-        let mut i = 0;
-        while i < BL {
-            if i < buf.len() {
-                buf[i] = src[i];
-            }
-            i += 1;
+        macro_rules! put {
+            ($($i:expr)*) => { $( if $i < buf.len() { buf[$i] = src[$i]; } )* };
         }
+        put!(0 1 2 3 4 5 6 7 8 9 10 11 12 13 14 15 16 17 18 19 20 21 22 23);
     }
 
     // ---------------------------------------------------------------- environment
@@ -282,7 +280,7 @@ mod v_socket_raw {
         };
     }
 
-    // @harness props=C09 cfg=KG tier=q to=900 mem=8 unwind=26 opts=nomem covers=4 funcs=raw::Socket::send_slice;raw::Socket::send;raw::Socket::send_with;raw::Socket::dispatch;Ipv4Packet::new_checked;Ipv4Repr::parse;PacketBuffer::enqueue;PacketBuffer::dequeue_with bounds=tx_metadata_slots_1..=2;_payload_ring_44_bytes;_pre-state_=_send,_dispatch_(each_may_be_a_no-op);_packets_of_1..=24_bytes_(IPv4_header_without_options_+_0..=4_payload_bytes,_or_malformed);_socket_bound_to_no/IPv4_version_and_no/any_protocol
+    // @harness props=C09 cfg=KG tier=q to=900 mem=8 unwind=6 opts=nomem covers=4 funcs=raw::Socket::send_slice;raw::Socket::send;raw::Socket::send_with;raw::Socket::dispatch;Ipv4Packet::new_checked;Ipv4Repr::parse;PacketBuffer::enqueue;PacketBuffer::dequeue_with bounds=tx_metadata_slots_1..=2;_payload_ring_44_bytes;_pre-state_=_send,_dispatch_(each_may_be_a_no-op);_packets_of_1..=24_bytes_(IPv4_header_without_options_+_0..=4_payload_bytes,_or_malformed);_socket_bound_to_no/IPv4_version_and_no/any_protocol
     #[kani::proof]
     pub(crate) fn raw_send() {
         tx_setup!(dev, iface, cx, s, g, proto);
@@ -308,7 +306,7 @@ mod v_socket_raw {
         drain_tx(&mut s, cx, &g, &proto);
     }
 
-    // @harness props=C09 cfg=KG tier=q to=900 mem=8 unwind=26 opts=nomem covers=3 funcs=raw::Socket::send_with;raw::Socket::send_slice;raw::Socket::dispatch;PacketBuffer::enqueue_with_infallible;PacketBuffer::dequeue_with bounds=tx_metadata_slots_1..=2;_payload_ring_44_bytes;_pre-state_=_send_slice,_dispatch_(each_may_be_a_no-op);_max_size_1..=24,_written_packet_1..=max_size_bytes
+    // @harness props=C09 cfg=KG tier=q to=900 mem=8 unwind=6 opts=nomem covers=3 funcs=raw::Socket::send_with;raw::Socket::send_slice;raw::Socket::dispatch;PacketBuffer::enqueue_with_infallible;PacketBuffer::dequeue_with bounds=tx_metadata_slots_1..=2;_payload_ring_44_bytes;_pre-state_=_send_slice,_dispatch_(each_may_be_a_no-op);_max_size_1..=24,_written_packet_1..=max_size_bytes
     #[kani::proof]
     pub(crate) fn raw_send_with() {
         tx_setup!(dev, iface, cx, s, g, proto);
@@ -347,7 +345,7 @@ mod v_socket_raw {
         drain_tx(&mut s, cx, &g, &proto);
     }
 
-    // @harness props=C09 cfg=KG tier=q to=900 mem=8 unwind=26 opts=nomem covers=4 funcs=raw::Socket::dispatch;raw::Socket::send_slice;raw::Socket::send_with;Ipv4Packet::new_checked;Ipv4Repr::parse;PacketBuffer::dequeue_with bounds=tx_metadata_slots_1..=2;_payload_ring_44_bytes;_pre-state_=_send_slice,_send_with_(each_may_be_a_no-op);_emit_returns_Ok_or_Err;_packets_of_1..=24_bytes_(well-formed_IPv4_or_malformed)
+    // @harness props=C09 cfg=KG tier=q to=900 mem=8 unwind=6 opts=nomem covers=4 funcs=raw::Socket::dispatch;raw::Socket::send_slice;raw::Socket::send_with;Ipv4Packet::new_checked;Ipv4Repr::parse;PacketBuffer::dequeue_with bounds=tx_metadata_slots_1..=2;_payload_ring_44_bytes;_pre-state_=_send_slice,_send_with_(each_may_be_a_no-op);_emit_returns_Ok_or_Err;_packets_of_1..=24_bytes_(well-formed_IPv4_or_malformed)
     #[kani::proof]
     pub(crate) fn raw_dispatch() {
         tx_setup!(dev, iface, cx, s, g, proto);
@@ -378,7 +376,7 @@ mod v_socket_raw {
         drain_tx(&mut s, cx, &g, &proto);
     }
 
-    // @harness props=C09,C13 cfg=KG tier=q to=900 mem=8 unwind=26 opts=nomem covers=3 funcs=raw::Socket::poll_at;raw::Socket::send_slice;raw::Socket::send_with;raw::Socket::dispatch bounds=tx_metadata_slots_1..=2;_payload_ring_44_bytes;_script_send_slice,_send_with,_dispatch,_send_slice,_dispatch,_dispatch_(each_may_be_a_no-op);_poll_at_probed_after_every_step
+    // @harness props=C09,C13 cfg=KG tier=q to=900 mem=8 unwind=6 opts=nomem covers=3 funcs=raw::Socket::poll_at;raw::Socket::send_slice;raw::Socket::send_with;raw::Socket::dispatch bounds=tx_metadata_slots_1..=2;_payload_ring_44_bytes;_script_send_slice,_send_with,_dispatch,_send_slice,_dispatch,_dispatch_(each_may_be_a_no-op);_poll_at_probed_after_every_step
     #[kani::proof]
     pub(crate) fn raw_poll_at() {
         tx_setup!(dev, iface, cx, s, g, proto);
@@ -518,7 +516,7 @@ mod v_socket_raw {
         };
     }
 
-    // @harness props=C09 cfg=KG tier=q to=900 mem=8 unwind=26 opts=nomem covers=4 funcs=raw::Socket::process;raw::Socket::accepts;raw::Socket::recv;Ipv4Repr::emit;PacketBuffer::enqueue;PacketBuffer::dequeue bounds=rx_metadata_slots_1..=2;_payload_ring_44_bytes;_pre-state_=_process,_recv_(each_may_be_a_no-op);_IPv4_packets_with_0..=4_payload_bytes,_any_protocol_the_socket_accepts
+    // @harness props=C09 cfg=KG tier=q to=900 mem=8 unwind=6 opts=nomem covers=4 funcs=raw::Socket::process;raw::Socket::accepts;raw::Socket::recv;Ipv4Repr::emit;PacketBuffer::enqueue;PacketBuffer::dequeue bounds=rx_metadata_slots_1..=2;_payload_ring_44_bytes;_pre-state_=_process,_recv_(each_may_be_a_no-op);_IPv4_packets_with_0..=4_payload_bytes,_any_protocol_the_socket_accepts
     #[kani::proof]
     pub(crate) fn raw_process_recv() {
         rx_setup!(dev, iface, cx, s, g, proto);
@@ -545,7 +543,7 @@ mod v_socket_raw {
         kani::cover!(!delivered && before == mcap, "dropped whole: metadata slots full");
     }
 
-    // @harness props=C09 cfg=KG tier=q to=900 mem=8 unwind=26 opts=nomem covers=3 funcs=raw::Socket::recv_slice;raw::Socket::recv;raw::Socket::process bounds=rx_metadata_slots_1..=2;_payload_ring_44_bytes;_pre-state_=_process,_process_(each_may_be_a_no-op);_user_buffer_0..=24_bytes
+    // @harness props=C09 cfg=KG tier=q to=900 mem=8 unwind=6 opts=nomem covers=3 funcs=raw::Socket::recv_slice;raw::Socket::recv;raw::Socket::process bounds=rx_metadata_slots_1..=2;_payload_ring_44_bytes;_pre-state_=_process,_process_(each_may_be_a_no-op);_user_buffer_0..=24_bytes
     #[kani::proof]
     pub(crate) fn raw_recv_truncated() {
         rx_setup!(dev, iface, cx, s, g, proto);
@@ -575,7 +573,7 @@ mod v_socket_raw {
         drain_rx(&mut s, &g);
     }
 
-    // @harness props=C09 cfg=KG tier=q to=900 mem=8 unwind=26 opts=nomem covers=3 funcs=raw::Socket::peek;raw::Socket::peek_slice;raw::Socket::recv;PacketBuffer::peek bounds=rx_metadata_slots_1..=2;_payload_ring_44_bytes;_pre-state_=_process,_process_(each_may_be_a_no-op);_user_buffer_0..=24_bytes
+    // @harness props=C09 cfg=KG tier=q to=900 mem=8 unwind=6 opts=nomem covers=3 funcs=raw::Socket::peek;raw::Socket::peek_slice;raw::Socket::recv;PacketBuffer::peek bounds=rx_metadata_slots_1..=2;_payload_ring_44_bytes;_pre-state_=_process,_process_(each_may_be_a_no-op);_user_buffer_0..=24_bytes
     #[kani::proof]
     pub(crate) fn raw_peek() {
         rx_setup!(dev, iface, cx, s, g, proto);
@@ -616,7 +614,7 @@ mod v_socket_raw {
     }
 
     // ---------------------------------------------------------------- accepts
-    // @harness props=C09 cfg=KG tier=q to=600 mem=8 unwind=26 opts=nomem covers=3 funcs=raw::Socket::accepts;raw::Socket::new bounds=socket_bound_to_no/IPv4/IPv6_version_and_no/any_protocol;_IPv4_or_IPv6_repr_with_any_next_header
+    // @harness props=C09 cfg=KG tier=q to=600 mem=4 unwind=6 opts=nomem covers=3 funcs=raw::Socket::accepts;raw::Socket::new bounds=socket_bound_to_no/IPv4/IPv6_version_and_no/any_protocol;_IPv4_or_IPv6_repr_with_any_next_header
     #[kani::proof]
     pub(crate) fn raw_accepts() {
         let bver: u8 = kani::any();
@@ -667,7 +665,7 @@ mod v_socket_raw {
 
     // documented on `send`: "If the buffer is filled in a way that does not match the socket's IP version or
     // protocol, the packet will be silently dropped."
-    // @harness props=C09 cfg=KG tier=q to=600 mem=8 unwind=26 opts=nomem covers=1 funcs=raw::Socket::send_slice;raw::Socket::dispatch bounds=socket_bound_to_IPv6;_one_well-formed_IPv4_packet_of_20..=24_bytes
+    // @harness props=C09 cfg=KG tier=q to=600 mem=4 unwind=6 opts=nomem covers=1 funcs=raw::Socket::send_slice;raw::Socket::dispatch bounds=socket_bound_to_IPv6;_one_well-formed_IPv4_packet_of_20..=24_bytes
     #[kani::proof]
     pub(crate) fn raw_version_filter() {
         #[cfg(feature = "proto-ipv6")]
@@ -692,7 +690,7 @@ mod v_socket_raw {
     }
 
     // an empty datagram is accepted by `send`; `dispatch` (i.e. `Interface::poll`) must drop it, not panic
-    // @harness props=C09 cfg=KG tier=q to=600 mem=8 unwind=26 opts=nomem covers=1 funcs=raw::Socket::send;raw::Socket::dispatch;IpVersion::of_packet bounds=one_datagram_of_0_bytes
+    // @harness props=C09 cfg=KG tier=q to=600 mem=4 unwind=6 opts=nomem covers=1 funcs=raw::Socket::send;raw::Socket::dispatch;IpVersion::of_packet bounds=one_datagram_of_0_bytes
     #[kani::proof]
     pub(crate) fn raw_send_empty_datagram() {
         env!(dev, iface, cx);
@@ -708,7 +706,7 @@ mod v_socket_raw {
         assert!(s.poll_at(cx) == PollAt::Ingress, "prop:c13_raw_poll_at_ingress_when_nothing_queued");
     }
 
-    // @harness props=C09 kind=mustfail cfg=KG tier=q to=600 mem=8 unwind=26 opts=nomem
+    // @harness props=C09 kind=mustfail cfg=KG tier=q to=600 mem=8 unwind=6 opts=nomem
     #[kani::proof]
     pub(crate) fn raw_must_fail() {
         tx_setup!(dev, iface, cx, s, g, proto);
